@@ -830,12 +830,21 @@ inline void world::connection_event_activity()
     // of the accuracies (1000.5 ppm for +-500 ppm), which the widening the property asks for (the sum) does not cover
     const std::int64_t tolerance_us = 2 + static_cast< std::int64_t >( we ) / 500000;
     bool own_anchor_before_window = false;
+    unsigned passed_unlistened = 0;
     std::int64_t own_anchor_local = 0;
     while ( c_.connected && to_local_us( c_.anchor_ns ) < ws - tolerance_us )
     {
         // the window of the event the peripheral aims at opens after that event's anchor
         if ( c_.abs_counter == k_abs ) { own_anchor_before_window = true; own_anchor_local = to_local_us( c_.anchor_ns ); }
+        ++passed_unlistened;
         central_unanswered_event();
+    }
+    // whatever number the peripheral gives its event: the first event of a connection has to be listened to (there is no latency before it)
+    if ( passed_unlistened && !listened_once_ && !own_anchor_before_window && !c_.sync_excused && ( c_.connected || !c_.heard_once ) )
+    {
+        violate( "C22", "window-misses-anchor", "window-misses-first-anchor not-listened", "the first receive window of the connection [%lld, %lld] us after the connect request opens after %u connection events of the central have passed (the peripheral calls it event %u)",
+                 (long long)( ws - r_.t0_us ), (long long)( we - r_.t0_us ), passed_unlistened, k16 );
+        c_.sync_excused = true;
     }
     const bool in_window = c_.connected && to_local_us( c_.anchor_ns ) <= we + tolerance_us;
     if ( own_anchor_before_window && c_.connected && !c_.sync_excused )
